@@ -9,6 +9,7 @@ centre displacement identity `‖c' − c‖ = R' − R` in squared form; see th
 at `sphere_contains_old_sq`.
 -/
 import ArtProofs.Kernels
+import ArtProofs.Sphere
 
 namespace Art.C02
 
@@ -265,6 +266,38 @@ theorem sphere_contains_old_sq (β R dist : α) (hd : 0 < dist) :
   rcases le_total R dist with h | h
   · rw [min_eq_left h, max_eq_right h]; field_simp; ring
   · rw [min_eq_right h, max_eq_left h]; field_simp; ring
+
+/-! ### Hypersphere ART in a real normed space (the Euclidean clauses) -/
+
+end Field
+
+section Euclid
+variable {V : Type} [NormedAddCommGroup V] [NormedSpace ℝ V]
+open Art.Sphere
+
+/-- **Each new hypersphere contains the old one**: every point within `R` of the old centre is
+within `R'` of the new centre — for every learning rate `β ≥ 0`, any sample `x`, in any real
+normed space (`EuclideanSpace ℝ (Fin d)` is the one the code computes in). -/
+theorem sphere_contains_old (β R : ℝ) (c x y : V) (hβ : 0 ≤ β) (hR : 0 ≤ R) (hy : ‖y - c‖ ≤ R) :
+    ‖y - newCentre β R c x‖ ≤ newRadius β R ‖x - c‖ :=
+  new_sphere_contains_old β R c x y hβ hR hy
+
+/-- With fast learning the new sphere contains the absorbed sample … -/
+theorem sphere_contains_sample (R : ℝ) (c x : V) (hR : 0 ≤ R) :
+    ‖x - newCentre 1 R c x‖ ≤ newRadius 1 R ‖x - c‖ :=
+  new_sphere_contains_sample R c x hR
+
+/-- … hence **a Hypersphere ART sphere contains all its members** (β = 1): the inductive step over
+the stream of a category's members. -/
+theorem sphere_contains_members (R : ℝ) (c x : V) (members : List V) (hR : 0 ≤ R)
+    (h : ∀ m ∈ members, ‖m - c‖ ≤ R) :
+    (∀ m ∈ x :: members, ‖m - newCentre 1 R c x‖ ≤ newRadius 1 R ‖x - c‖) ∧ 0 ≤ newRadius 1 R ‖x - c‖ :=
+  ⟨sphere_contains_members_step R c x members hR h, newRadius_nonneg 1 R _ zero_le_one hR⟩
+
+end Euclid
+
+section Field
+variable {α : Type} [Field α] [LinearOrder α] [IsStrictOrderedRing α]
 
 /-! ### Gaussian / Bayesian ART: exact mean and count -/
 
